@@ -330,6 +330,24 @@ def replay_alias(rec):
             if now != snap:
                 yield fn, 'aliasing:' + kind, 'input-modified', '%s modified its %s input: %r -> %r' % (fn, kind, snap, now)
                 break
+    # The encoded form of a name is a value (declared `-> bytes`; the library itself keys dictionaries with it): when the
+    # name was handed over in a buffer the caller goes on using, the result must not follow the buffer, and it is hashable.
+    for kind, mk in (('bytearray', lambda: bytearray(wire)), ('memoryview', lambda: memoryview(bytearray(wire))),
+                     ('list-bytearray', lambda: [bytearray(e) for e in encs])):
+        buf = mk()
+        got, ex = _try(Name.to_bytes, buf)
+        n += 1
+        if ex or bytes(got) != wire:
+            yield 'Name.to_bytes', 'aliasing:' + kind, ex or 'wrong-wire', 'Name.to_bytes(%s) -> %r, spec %r' % (kind, ex or bytes(got), wire)
+            continue
+        for b in (buf if isinstance(buf, list) else [buf]):
+            for i in range(len(b)):
+                b[i] = 0x2a
+        _, ex = _try(hash, got)
+        if ex or bytes(got) != wire:
+            yield 'Name.to_bytes', 'aliasing:' + kind, 'follows-the-callers-buffer' if not ex else 'unhashable', (
+                'Name.to_bytes(%s): after the caller overwrote its buffer the result is %r (%s), spec %r' % (
+                    kind, bytes(got), ex or 'hashable', wire))
     yield None, None, None, n
 
 
